@@ -225,6 +225,11 @@ func NewMsgBlockTxsFull(
 		Bitmaps: maps.Clone(bitmaps),
 		TxsRaw:  slices.Clone(txs),
 	}
+	if m.Bitmaps == nil {
+		// MarshalCBOR picks the 4-element layout by Bitmaps != nil; keep the
+		// full form (and with it the point) when no bitmaps are given
+		m.Bitmaps = map[uint16]uint64{}
+	}
 	return m
 }
 
